@@ -84,6 +84,7 @@ class VariableAccessTransformer(converter.Base):
 
   def visit_AugAssign(self, node):
     if isinstance(node.target, ast.Name):
+      node.value = self.visit(node.value)
       template = """
         var_ = ag__.ld(var_)
         original
